@@ -23,9 +23,9 @@ import subprocess
 
 VERIF = os.path.dirname(os.path.dirname(os.path.abspath(__file__)))
 LEAN = os.path.join(VERIF, "lean")
-GEN = os.path.join(LEAN, "Mctp", "Gen", "Source.lean")
-MIR_TARGET = os.path.join(VERIF, ".build", "mir")
-REPO = "/repo"
+GEN = os.environ.get("VERIF_GEN_OUT") or os.path.join(LEAN, "Mctp", "Gen", "Source.lean")
+MIR_TARGET = os.environ.get("VERIF_MIR_TARGET") or os.path.join(VERIF, ".build", "mir")
+REPO = os.environ.get("VERIF_REPO") or "/repo"
 
 
 class Unsupported(Exception):
@@ -227,6 +227,32 @@ class FnTranslator:
         return "⟨%d, [\n%s]⟩" % (nlocals, ",\n".join(out))
 
 
+def encoder_headers(fns, enums):
+    """[(module::method, rq, d, instance, CommandCode variant, back end)] for every public encoder of
+    smbus_request.rs / smbus_response.rs that builds its control header with
+    MCTPControlMessageHeader::new(<const>, <const>, <const>, CommandCode::V); raises Unsupported"""
+    out = []
+    for name, params, ret, body in fns:
+        m = re.match(r"(smbus_request|smbus_response)::<impl at [^>]*>::(\w+)$", name)
+        if not m or "Result<usize, ()>" not in ret:
+            continue
+        calls = [l.strip() for l in body if "MCTPControlMessageHeader::<[u8; 2]>::new(" in l]
+        if not calls:
+            continue      # vendor_defined: no control header
+        if len(calls) != 1:
+            raise Unsupported("%s::%s builds %d control headers" % (m.group(1), m.group(2), len(calls)))
+        c = re.match(r"_\d+ = MCTPControlMessageHeader::<\[u8; 2\]>::new\(const (true|false), const (true|false), const (\d+)_u8, move _(\d+)\) ->", calls[0])
+        if not c:
+            raise Unsupported("%s::%s: header arguments are not constants: %s" % (m.group(1), m.group(2), calls[0][:120]))
+        var = [re.match(r"\s*_%s = (?:[\w:]+::)?CommandCode::(\w+);$" % c.group(4), l) for l in body]
+        var = [v.group(1) for v in var if v]
+        if len(var) != 1 or var[0] not in dict(enums.get("CommandCode", [])):
+            raise Unsupported("%s::%s: command code of the header is not one literal variant" % (m.group(1), m.group(2)))
+        back = sorted({b for l in body for b in re.findall(r"SMBusMCTPRequestResponse>::(generate_\w+)\(", l)})
+        out.append(("%s::%s" % (m.group(1), m.group(2)), c.group(1), c.group(2), int(c.group(3)), var[0], "+".join(back)))
+    return out
+
+
 # ----------------------------------------------------------------------------- source text: bitfield! and constants
 
 def strip_comments(src):
@@ -338,6 +364,17 @@ def generate():
             status["fn:" + lname] = "not translated: outside the MIR fragment: " + str(ex)[:200]
     for lname, body in prog:
         L.append("def fn_%s : Fn :=\n  %s\n" % (lname, body))
+    # control-header constants of the public encoders
+    try:
+        if mir is None or "CommandCode" not in enums:
+            raise Unsupported("no MIR")
+        eh = encoder_headers(fns, enums)
+        L.append("/-- (module::method, Rq, D, instance id, command code, back end) of every public control encoder -/")
+        L.append("def encoderHeaders : List (String × Bool × Bool × Nat × CommandCode × String) := [\n%s]\n" % ",\n".join(
+            '  ("%s", %s, %s, %d, .%s, "%s")' % e for e in eh))
+        status["encoder-headers"] = "translated"
+    except Unsupported as ex:
+        status["encoder-headers"] = "not translated: " + str(ex)[:200]
     L.append("def prog : Prog := [%s]" % ", ".join("fn_" + n for n, _ in prog))
     for i, (lname, _) in enumerate(prog):
         L.append("def idx_%s : Nat := %d" % (lname, i))
